@@ -113,16 +113,23 @@ class Ctx:
             return 0
         if self.concrete is not None:
             return self.concrete.get(name, 0)
+        if name in self.vars:
+            raise SxUnsupported(f'choice variable {name} used twice on one path')
         v = self.sym_int(name, 0, n - 1)
+        # a fresh variable constrained only by its range: every value is feasible, so the branch "v == i" needs no
+        # solver call (both sides are satisfiable by construction); the decisions still drive the search tree
         for i in range(n - 1):
-            if v == i:
+            if self._decide(v.t == i, known=(True, True)):
                 return i
         return n - 1
 
     def flag(self, name):
         if self.concrete is not None:
             return bool(self.concrete.get(name, False))
-        return bool(self.sym_bool(name))
+        if name in self.vars:
+            raise SxUnsupported(f'flag {name} used twice on one path')
+        v = self.sym_bool(name)
+        return self._decide(v.t, known=(True, True))      # fresh unconstrained boolean: both values are feasible
 
     # ---- decisions
     def decide(self, cond):
@@ -140,7 +147,7 @@ class Ctx:
             self.decided[cond.arg(0).get_id()] = (not r, cond.arg(0))
         return r
 
-    def _decide(self, cond):
+    def _decide(self, cond, known=None):
         i = len(self.decisions)
         if i < len(self.forced):
             b, pend = self.forced[i]
@@ -149,6 +156,13 @@ class Ctx:
             if self._eval_in_model(cond) is not b:
                 self.model = None
             return b
+        if known is not None:
+            can_t, can_f = known
+            self.model = None
+            if can_t and can_f:
+                self.decisions.append((True, True))
+                self.pc.append(cond)
+                return True
         guess = self._eval_in_model(cond)
         if guess is True:
             can_t = True
